@@ -103,3 +103,56 @@ Definition canon (o : sx) : sx :=
 Definition case_code_spec (c : pcase) (impl : sx) : Z :=
   if negb (wellformed c) then 200
   else if sx_eqb (canon impl) (canon (spec_outcome c)) then 0 else 3.
+
+(* ------------------------------------------------------------------------------------------- *)
+(* Nested calls: one written argument of the outer callable is itself a symbolic call g(...), e.g. f(g(x)) or
+   Pred(h(x), y).  These are OUTSIDE the model (Eql/PredEval.v has no call-valued argument); the implementation is
+   compared with the Spec only.  Spec = the concrete composition: for every candidate binding the inner callable is
+   applied to the values of its written arguments, and the outer callable to the values of its written arguments with
+   the inner RESULT (whatever its truthiness) in the nested position; truth = bool of the outer result (negated under
+   not_).  In the outer call the nested argument is written as the variable [nest_var]. *)
+Definition nest_var : Z := 99.
+
+Record ncase := {
+  n_outer : pcase;
+  n_inner_params : list Z;
+  n_inner_defaults : list (Z * Z);
+  n_inner_pos : list arg;
+  n_inner_kw : list (Z * arg);
+  n_inner_tbl : list Z;
+  n_neg : bool                          (* the condition is not_(outer(...)) *)
+}.
+
+Definition bound_kwargs (params : list Z) (pos : list arg) (kw : list (Z * arg)) : list (Z * arg) :=
+  flat_map (fun p => match python_bind params pos kw p with Some a => [(p, a)] | None => [] end) params.
+
+Definition vars_of (kwargs : list (Z * arg)) : list Z :=
+  flat_map (fun ka => match arg_var (snd ka) with Some x => [x] | None => [] end) kwargs.
+
+Definition spec_nested (n : ncase) : sx :=
+  let o := n_outer n in
+  let i := {| c_pred := false; c_params := n_inner_params n; c_defaults := n_inner_defaults n; c_pos := []; c_kw := [];
+              c_pre := []; c_sel := []; c_doms := c_doms o; c_attrs := c_attrs o; c_tbl := n_inner_tbl n |} in
+  let ikw := bound_kwargs (n_inner_params n) (n_inner_pos n) (n_inner_kw n) in
+  let okw := bound_kwargs (c_params o) (c_pos o) (c_kw o) in
+  let vars := dedup (c_pre o ++ vars_of ikw ++ filter (fun z => negb (Z.eqb z nest_var)) (vars_of okw)) in
+  let per := map (fun rho =>
+                    let icall := call_of (w_attr o) ikw rho in
+                    let v := body_of i icall in
+                    let ocall := call_of (w_attr o) okw (rho ++ [(nest_var, v)]) in
+                    (SL (map SZ (seen i icall)), SL (map SZ (seen o ocall)),
+                     xorb (n_neg n) (truthy_z (body_of o ocall)), row_of o rho))
+                 (cands (w_dom o) [] vars) in
+  SL [SZ 1; SZ 0;
+      SL (sx_set (map (fun r => fst (fst (fst r))) per));          (* the inner calls, as a set *)
+      SL (sx_sort (map (fun r => snd (fst (fst r))) per));         (* one outer call per candidate binding *)
+      SL (sx_sort (map (fun r => snd r) (filter (fun r => snd (fst r)) per)))].
+
+Definition canon_nested (o : sx) : sx :=
+  match o with
+  | SL [k; e; SL ic; SL oc; SL rows] => SL [k; e; SL (sx_set ic); SL (sx_sort oc); SL (sx_sort rows)]
+  | _ => o
+  end.
+
+Definition case_code_nested (n : ncase) (impl : sx) : Z :=
+  if sx_eqb (canon_nested impl) (spec_nested n) then 0 else 3.
